@@ -510,6 +510,7 @@ type sys struct {
 	bh     headerfs.BlockHeaderStore
 	fs     *failStore
 	fh     headerfs.FilterHeaderStore
+	cs     *neutrino.ChainService // the public lookups (GetBlockHash, GetBlockHeader, GetBlockHeight, BestBlock) over the same stores
 	bm     *neutrino.VerifBM
 	peers  []*neutrino.ServerPeer // index = peer id - 1
 	cand   []bool
@@ -610,6 +611,7 @@ func newSys(w *world, npeers int, rng *rand.Rand) (*sys, error) {
 		return nil, err
 	}
 	s.fs = &failStore{BlockHeaderStore: s.bh}
+	s.cs = &neutrino.ChainService{BlockHeaders: s.bh, RegFilterHeaders: s.fh}
 	if s.bm, err = neutrino.VerifNewBM(w.params, s.fs, s.fh, w.ts); err != nil {
 		return nil, err
 	}
@@ -786,6 +788,35 @@ func (s *sys) dump(res string, best int, bl string) string {
 		}
 	}
 	b.WriteString("]")
+	// the same questions asked through the ChainService's public lookups: every height (again,
+	// after every event - also the heights asked before a reorganisation), every known hash, the best block
+	b.WriteString(" csbyh [")
+	for h := 0; h < len(s.w.nodes)+2; h++ {
+		hash, err := s.cs.GetBlockHash(int64(h))
+		if err != nil {
+			break
+		}
+		if h > 0 {
+			b.WriteByte(' ')
+		}
+		fmt.Fprintf(&b, "%d", s.idOfHash(*hash))
+	}
+	b.WriteString("] cstip ")
+	if bs, err := s.cs.BestBlock(); err != nil {
+		b.WriteString("E")
+	} else {
+		fmt.Fprintf(&b, "%d:%d", s.idOfHash(bs.Hash), bs.Height)
+	}
+	bad := 0
+	for _, n := range s.w.nodes {
+		_, h1, e1 := s.bh.FetchHeader(&n.hash)
+		h2, e2 := s.cs.GetBlockHeight(&n.hash)
+		hd, e3 := s.cs.GetBlockHeader(&n.hash)
+		if (e1 == nil) != (e2 == nil) || (e1 == nil) != (e3 == nil) || e1 == nil && (uint32(h2) != h1 || hd.BlockHash() != n.hash) {
+			bad++
+		}
+	}
+	fmt.Fprintf(&b, " csbad %d", bad)
 	return b.String()
 }
 
